@@ -509,6 +509,25 @@ func vScripts() []vScript {
 				}
 			}
 		}},
+		{"c14-pending-own-observation-is-kept-and-retried-for-more-than-five-days", func(dr *vDriver, w *vWorld) {
+			// a signed message that never reaches quorum: ticks every ten minutes for 127 hours (the budget of 14400 retries is far from spent:
+			// about 760 retries): the entry must still be there and be retried at every one of these ticks — age alone never expires it
+			mem := members(3, 1)
+			dr.opClock(1000)
+			dr.opSetGS(w.set(mem, 0))
+			k := w.msg(0)
+			T := int64(1000)
+			dr.opMsg(k)
+			dr.opLoop(0)
+			if !tick(dr, &T, 31) {
+				return
+			}
+			for i := 0; i < 762; i++ {
+				if !tick(dr, &T, 600) {
+					return
+				}
+			}
+		}},
 		{"c14-late-own-observation-with-stored-quorum-vaa", func(dr *vDriver, w *vWorld) {
 			mem := members(3, 1)
 			gs := w.set(mem, 0)
